@@ -25,7 +25,8 @@ def views(t):
     """by-value presentations of `x: &Owned(t)` that the region `t` accepts as push input"""
     k = t.kind
     a = t.args
-    own = View("own", (lambda x: "(*%s)" % x) if copyprim(t) else (lambda x: "%s.clone()" % x))
+    # owned vectors and strings arrive with spare capacity (a `Vec` built by pushing is rarely exactly full)
+    own = View("own", (lambda x: "(*%s)" % x) if copyprim(t) else (lambda x: "crate::val::Spare::spare(%s.clone())" % x))
     ref = View("ref", lambda x: x)
     if k == "mirror":
         return [own, ref]
@@ -104,7 +105,7 @@ def supports_item(t):
 def ord_ok(t):
     k = t.kind
     if k in ("mirror", "owned"):
-        return t.args[0].kind not in ("f64", "i64")
+        return t.args[0].kind not in fcat.SIGNED_OR_FLOAT
     if k in ("string", "vecregion", "huffman", "codec"):
         return True
     if k in ("slice", "option", "consec", "collapse"):
